@@ -244,7 +244,7 @@ class World:
                 o += [("req", "PUTF")]
         # a preloaded response kept by release_conn=False has no body left: partial reads and
         # stream() are no-ops on it and are not ways of disposing of it
-        kinds = ("read", "release", "drain", "close") if self.cfg["preload"] else ("read", "read3", "release", "drain", "close", "stream")
+        kinds = ("read", "release", "drain", "close") if self.cfg["preload"] else ("read", "read3", "release", "drain", "close", "stream", "read1x")
         if not self.cfg["preload"] and self.cfg.get("more_ops"):
             kinds += ("iter", "read1", "readinto")  # thorough tier: the remaining ways of consuming a body to its end
         for i in range(len(self.out)):
@@ -298,6 +298,19 @@ class World:
                     elif k == "read1":
                         while r.read1(4):
                             pass
+                        self.done.append(self.out.pop(op[1]))
+                    elif k == "read1x":
+                        # read1() in pieces, stopping at the announced length (a caller that counts bytes never makes
+                        # the extra call that returns b""): the body has been read to its end all the same
+                        # (wave-6 change w6_c01_m1: the end-of-body test of the read1 path held for a single call only)
+                        cl = r.headers.get("content-length")
+                        want = int(cl) if cl is not None and cl.isdigit() else None
+                        got = 0
+                        while True:
+                            d = r.read1(4)
+                            got += len(d)
+                            if not d or (want is not None and got >= want):
+                                break
                         self.done.append(self.out.pop(op[1]))
                     elif k == "readinto":
                         buf = bytearray(4)
